@@ -220,10 +220,13 @@ class Tokenizer:
                         ):
                             # may contain unicode escape, replace with normal
                             # char but do not _normalize (?)
-                            value = self.unicodesub(_repl, found)
+                            value = found
                             if name in ('STRING', 'INVALID'):  # 'URI'?
                                 # remove \ followed by nl (so escaped) from string
+                                # (first, else a newline written as \a is taken
+                                # for one)
                                 value = self.cleanstring('', value)
+                            value = self.unicodesub(_repl, value)
 
                         else:
                             if 'ATKEYWORD' == name:
